@@ -20,7 +20,7 @@ LEVEL_NOTE = ("hand-written model of cartesian.rs over R with oracles; tie: hook
               "schedule is recomputed from segment lengths/angles; end-to-end Cartesian::plan is exercised by an independent oracle (FK of every "
               "way-point, collision verdict, distance to the polyline, transition costs, flags, rayon pools 1/16)")
 TECHNIQUE = "Coq proof over R with oracle/choice parameters + vm_compute replay of recorded IK answers + end-to-end oracle"
-RULE = ("IRB2400 cells with free / far / grazing / blocking box obstacles and a free cell whose stroke passes the wrist singularity 1 mm aside (RRT gap closing), 2-4 stroke poses 3-10 cm apart, step sizes {1,2,5} cm, cost limits "
+RULE = ("IRB2400 cells with free / far / grazing / blocking box obstacles, a start standing 2 mm inside a 3 cm safety distance (no plan may begin there), a 8 mm obstacle that only the middle of one densified 5 cm step touches with a cost limit that forces the bisection through it, and a free cell whose stroke passes the wrist singularity 1 mm aside (RRT gap closing), 2-4 stroke poses 3-10 cm apart, step sizes {1,2,5} cm, cost limits "
         "{0.05,0.1,0.3}, recursion depths {0,2,6}, include-interpolation on/off, rayon pools {1,16}; non-trivial = bisection recursed at least "
         "once or the plan succeeded; distinct = distinct cells")
 EXPLANATION = LEVEL_NOTE
